@@ -57,7 +57,7 @@ such case is a unit, an obligation or a scenario that now exists:
   submachine by its initial entry".  C15f: drift (a member the model did not know) -> `m_upper_fsm` modelled, obligation "the copy keeps its
   own wiring".  C20f: drift and no scenario -> bounded deferred unit also under C20 + `queue` scenario "circular deferred queue, occurrence
   re-deferred while dispatched".  C09f: drift -> a continuation through `enqueue_event` is an obligation failure.  C12f caught by the row
-  contract; the `exc` family now runs all four switch policies and guard-less rows (544 scenarios) and gives the witness.  C02f C07f caught at once.
+  contract; the `exc` family now runs all four switch policies and guard-less rows (544 scenarios) and gives the witness.  C02f C07f caught at once.  C10f: drift and no scenario -> `queue` scenario "completion in the second region".
 * type-level changes (no contract reaches them; the native families decide - since the uncovered-code trigger of 10.3(c) also in the quick tier): C17b, C17c, C13b, C07c, C18c, C06d.
 
 ''' % n
